@@ -92,9 +92,29 @@ func vGeneralPosition(p []Point) bool {
 }
 
 func VH_C13_linestring_simplicity() {
+	// five vertices are the fewest for which a shortcut (a chord replacing two
+	// segments) can cross a segment it does not touch
 	w := vBound(3, 4)
 	n := 4 + vChoose(vBound(1, 2))
 	l := LineString(vGridPath(n, n, w, 0))
+	vAssume(vGeneralPosition(l))
+	vAssume(vSimple(l))
+	tol := vGridTol(w, 0)
+	out := l.Simplify(tol).(LineString)
+	vAssert(vSimple(out), "simple-input-gives-simple-output")
+	vReach("end")
+}
+
+// five vertices with the two ends of one candidate chord fixed (which keeps
+// most orientation tests linear): p0 and p2 concrete, p1, p3, p4 and the
+// tolerance free; traversed in either direction
+func VH_C13_linestring_simplicity_chord() {
+	w := 3
+	f := vGridPath(3, 3, w, 0)
+	l := LineString{{X: -4, Y: -1}, f[0], {X: 3, Y: 0}, f[1], f[2]}
+	if vChoose(2) == 1 {
+		l = LineString{l[4], l[3], l[2], l[1], l[0]}
+	}
 	vAssume(vGeneralPosition(l))
 	vAssume(vSimple(l))
 	tol := vGridTol(w, 0)
